@@ -68,7 +68,7 @@ fn go<'a, T: IteTable<'a, BddPtr<'a>> + Default>(
 ) -> CaseResult {
     let grow0 = rsdd::verif_hooks::table_grows();
     let lru0 = rsdd::verif_hooks::lru_overwrites();
-    let mut run = BddRun::new(b, case.cfg.n0 as usize);
+    let mut run = BddRun::new_embedded(b, case.cfg.labels());
     let cps: BTreeSet<usize> = if case.ops.is_empty() {
         BTreeSet::new()
     } else {
@@ -88,6 +88,7 @@ fn go<'a, T: IteTable<'a, BddPtr<'a>> + Default>(
             // C01 is the function check: canonicity is keyed by the function the diagram actually denotes
             // (read by walking it), so a wrong result of an operation is not reported under this property
             let walked = bdd_tt(p);
+            let _ = take_foreign_label(); // a result outside the embedding is a wrong function: C01's concern
             if walked != t {
                 st.bump("result_differs_from_oracle_function(C01's concern)");
             }
@@ -182,7 +183,7 @@ impl SubCheckT for Builder {
     type Case = Case;
     const NAME: &'static str = "builder";
     const REPLAY_ATTEMPTS: u32 = 40;
-    const RULE: &'static str = "BDD histories as in C01 with the unique table started at 1..24 slots in most cases; every result is keyed by the truth table read off the diagram itself and must be pointer-equal (and builder.eq) to the first diagram of that function, and unequal (pointer and builder.eq, both argument orders) to every diagram of a different function; every result of a logical op is walked for order/reducedness/high-edge shape; every reachable node is re-requested through get_or_insert at checkpoints and at the end and must come back at the same address. Non-trivial: the table grew at least once and nodes were re-requested after a growth";
+    const RULE: &'static str = "BDD histories as in C01 (a fifth of them embedded in builders with 9..200 variables under pseudo-random orders) with the unique table started at 1..24 slots in most cases; every result is keyed by the truth table read off the diagram itself and must be pointer-equal (and builder.eq) to the first diagram of that function, and unequal (pointer and builder.eq, both argument orders) to every diagram of a different function; every result of a logical op is walked for order/reducedness/high-edge shape; every reachable node is re-requested through get_or_insert at checkpoints and at the end and must come back at the same address. Non-trivial: the table grew at least once and nodes were re-requested after a growth";
     fn cases(tier: Tier) -> u32 {
         tier.pick(12_000, 200_000)
     }
@@ -199,11 +200,17 @@ impl SubCheckT for Builder {
                     order_keys,
                     cache,
                     table_cap,
+                    embed: None,
                 }),
+            // a fifth of the histories run inside a builder with 9..200 variables (see C01)
+            prop_oneof![4 => Just(None), 1 => (prop_oneof![9u8..=40, 41u8..=200], any::<u64>()).prop_map(Some)],
             ops_strategy(60),
             proptest::collection::vec(any::<u16>(), 3),
         )
-            .prop_map(|(cfg, ops, checkpoints)| Case { cfg, ops, checkpoints })
+            .prop_map(|(mut cfg, embed, ops, checkpoints)| {
+                cfg.embed = embed;
+                Case { cfg, ops, checkpoints }
+            })
             .boxed()
     }
     fn run(case: &Case, st: &mut Stats) -> CaseResult {
